@@ -69,7 +69,7 @@ impl Property for C01 {
         ]
     }
     fn enum_len(&self, g: &GenCtx) -> usize {
-        grid_len(g, 40_000, usize::MAX)
+        grid_len(g, 200_000, usize::MAX)
     }
     fn enum_case(&self, g: &GenCtx, i: usize) -> Option<Value> {
         let n = self.enum_len(g);
